@@ -747,6 +747,291 @@ theorem C06_spec_spot_to_spot (s : Karp.Scn.Scenario) (ridKey : String) (gate : 
   · rw [if_neg hcond]
 
 
+/-! ## The launch cap (`Results.TruncateInstanceTypes`)
+
+`C06_feasible` starts from a simulation that "scheduled every non-pending pod".  Between the solver and that reading sits
+the cut to the `MaxInstanceTypes` cheapest options; these theorems say that the cut cannot make pods disappear from the
+account: every pod of a new NodeClaim is, after the cut, either still on a NodeClaim or an entry of `PodErrors`, so a
+simulation that lost a NodeClaim to the cap is never read as "all scheduled" and yields no command. -/
+
+/-- **C06_truncate_accounts** — no pod vanishes: after the cut every pod of the solver's new NodeClaims is on a remaining
+    NodeClaim or reported as a pod error. -/
+theorem C06_truncate_accounts (strict : Bool) (cap : Nat) (claims : List PClaim) (p : String)
+    (hp : p ∈ claims.flatMap (·.pods)) :
+    p ∈ (truncateResults strict cap claims).1.flatMap (·.pods) ∨ p ∈ (truncateResults strict cap claims).2 := by
+  induction claims with
+  | nil => simp at hp
+  | cons c cs ih =>
+    simp only [List.flatMap_cons, List.mem_append] at hp
+    unfold truncateResults
+    cases ht : truncateTypes strict cap c.claim.reqs c.claim.its with
+    | none =>
+      simp only [List.mem_append]
+      rcases hp with h | h
+      · exact Or.inr (Or.inl h)
+      · rcases ih h with h' | h'
+        · exact Or.inl h'
+        · exact Or.inr (Or.inr h')
+    | some t =>
+      simp only [List.flatMap_cons, List.mem_append]
+      rcases hp with h | h
+      · exact Or.inl (Or.inl h)
+      · rcases ih h with h' | h'
+        · exact Or.inl (Or.inr h')
+        · exact Or.inr h'
+
+/-- the NodeClaims that remain are NodeClaims of the solver's result, in order, each cut to a prefix of at most `cap`
+    options that still meets minValues under the Strict policy -/
+theorem C06_truncate_kept (strict : Bool) (cap : Nat) (claims : List PClaim) (k : PClaim)
+    (hk : k ∈ (truncateResults strict cap claims).1) :
+    ∃ c ∈ claims, k.pods = c.pods ∧ k.claim.reqs = c.claim.reqs ∧ k.claim.its = c.claim.its.take cap ∧
+      k.claim.its.length ≤ cap ∧ (strict = true → (satisfiesMinValues k.claim.reqs k.claim.its).2 = false) := by
+  induction claims with
+  | nil => simp [truncateResults] at hk
+  | cons c cs ih =>
+    unfold truncateResults at hk
+    cases ht : truncateTypes strict cap c.claim.reqs c.claim.its with
+    | none =>
+      rw [ht] at hk
+      obtain ⟨c', hc', h⟩ := ih hk
+      exact ⟨c', List.mem_cons_of_mem _ hc', h⟩
+    | some t =>
+      rw [ht] at hk
+      simp only [List.mem_cons] at hk
+      rcases hk with rfl | hk
+      · refine ⟨c, List.mem_cons_self, rfl, rfl, ?_, ?_, ?_⟩
+        · unfold truncateTypes at ht
+          simp only at ht
+          split at ht
+          · cases ht
+          · exact (Option.some.inj ht).symm
+        · unfold truncateTypes at ht
+          simp only at ht
+          split at ht
+          · cases ht
+          · have := (Option.some.inj ht).symm
+            simp only [this, List.length_take]
+            omega
+        · intro hs
+          unfold truncateTypes at ht
+          simp only at ht
+          split at ht
+          · cases ht
+          · rename_i hcond
+            have ht' := (Option.some.inj ht).symm
+            simp only [ht']
+            subst hs
+            unfold satisfiesMinValues at hcond ⊢
+            unfold hasMinValues at hcond
+            by_cases hm : (minKeys c.claim.reqs).isEmpty = true
+            · simp [hm]
+            · simp only [hm, Bool.not_false, Bool.true_and, Bool.and_true] at hcond
+              simpa [hm] using hcond
+      · obtain ⟨c', hc', h⟩ := ih hk
+        exact ⟨c', List.mem_cons_of_mem _ hc', h⟩
+
+/-- **C06_cap_no_silent_loss** — a simulation that lost a NodeClaim (with a pod on it) to the cap is not read as "all
+    scheduled": `computeConsolidation` returns no command for it, whatever the candidates and the gate. -/
+theorem C06_cap_no_silent_loss (ridKey : String) (gate : Bool) (cands : List Cand) (strict : Bool) (cap : Nat)
+    (errs : List String) (claims : List PClaim) (p : String) (hp : p ∈ claims.flatMap (·.pods))
+    (hlost : p ∉ (truncateResults strict cap claims).1.flatMap (·.pods)) :
+    compute ridKey gate cands (simAfterCap strict cap errs claims) = .noop := by
+  have hacc := C06_truncate_accounts strict cap claims p hp
+  have herr : p ∈ (truncateResults strict cap claims).2 := by
+    rcases hacc with h | h
+    · exact absurd h hlost
+    · exact h
+  have hne : (errs ++ (truncateResults strict cap claims).2).isEmpty = false := by
+    cases hx : errs ++ (truncateResults strict cap claims).2 with
+    | nil =>
+      have : p ∈ errs ++ (truncateResults strict cap claims).2 := List.mem_append.mpr (Or.inr herr)
+      rw [hx] at this; cases this
+    | cons _ _ => rfl
+  unfold compute simAfterCap
+  simp [hne]
+
+/-- the shape of the seeded witness: three cheap amd64 types, one dear arm64 type, arch minValues 2, cap 3 — the cut list
+    is all amd64, the NodeClaim is dropped, its pod is reported, no command -/
+def capTypes : List IType :=
+  [{ name := "a1", offerings := [ofr "z1" "on-demand" 10], vals := [("kubernetes.io/arch", ["amd64"])] },
+   { name := "a2", offerings := [ofr "z1" "on-demand" 11], vals := [("kubernetes.io/arch", ["amd64"])] },
+   { name := "a3", offerings := [ofr "z1" "on-demand" 12], vals := [("kubernetes.io/arch", ["amd64"])] },
+   { name := "b1", offerings := [ofr "z1" "on-demand" 50], vals := [("kubernetes.io/arch", ["arm64"])] }]
+def capReqs : Reqs := [("kubernetes.io/arch", { key := "kubernetes.io/arch", complement := false, values := ["amd64", "arm64"], minValues := some 2 })]
+def capClaim : PClaim := { pods := ["p"], claim := { reqs := capReqs, its := capTypes } }
+example : (truncateResults true 3 [capClaim]).1.length = 0 ∧ (truncateResults true 3 [capClaim]).2 = ["p"] := by decide
+example : (truncateResults true 4 [capClaim]).1.length = 1 ∧ (truncateResults true 4 [capClaim]).2 = [] := by decide
+example : (truncateResults false 3 [capClaim]).1.length = 1 := by decide
+example : (simAfterCap true 3 [] [capClaim]).allScheduled = false := by decide
+example : (simAfterCap true 4 [] [capClaim]).allScheduled = true := by decide
+
+/-- the code: the pods of a dropped NodeClaim are stored into `r.PodErrors` — the map of the Results value that is
+    RETURNED (`return r`; `r` is the value receiver, its `NewNodeClaims` replaced by the valid ones) -/
+theorem fact_truncate_results :
+    Karp.Gen.C06Facts.truncateResultsOutlineRecv = "r Results" ∧
+    Karp.Gen.C06Facts.truncateResultsOutline =
+      ["var validNewNodeClaims",
+       "for _, newNodeClaim := range r.NewNodeClaims",
+       "var err",
+       "newNodeClaim.InstanceTypeOptions, err = newNodeClaim.InstanceTypeOptions.Truncate(…)",
+       "if err != nil",
+       "for _, pod := range newNodeClaim.Pods",
+       "r.PodErrors[pod] = serrors.Wrap(…)",
+       "end",
+       "else",
+       "validNewNodeClaims = append(…)",
+       "end",
+       "end",
+       "r.NewNodeClaims = validNewNodeClaims",
+       "return r"] := by decide
+
+/-- `InstanceTypes.Truncate`: the first `maxItems` of the price order; the minValues error under the Strict policy only -/
+theorem fact_truncate_types :
+    Karp.Gen.C06Facts.truncateTypesOutline =
+      ["truncatedInstanceTypes := lo.Slice(…)",
+       "if requirements.HasMinValues()",
+       "if options.FromContext(ctx).MinValuesPolicy != options.MinValuesPolicyBestEffort",
+       "if err != nil",
+       "return its, fmt.Errorf(…)",
+       "end", "end", "end",
+       "return truncatedInstanceTypes, nil"] := by decide
+
+/-- "all non-pending pods scheduled" is read off `PodErrors` -/
+theorem fact_all_scheduled_reads_pod_errors :
+    Karp.Gen.C06Facts.allNonPendingCmps =
+      ["len(lo.OmitBy(r.PodErrors, (func(p *corev1.Pod, err error) bool literal))) == 0"] := by decide
+
+/-! ## Price tables per NodePool
+
+Prices belong to the NodePool that buys: `Karp.Spec.Consolidation.Tables`.  The model needs no change — a candidate
+carries the offerings of its type as ITS NodePool is charged for them (`Cand.offerings`: `NewCandidate` resolves
+`Candidate.Price` from `nodePoolToInstanceTypesMap[candidate's NodePool]`), the options of the simulated NodeClaim are the
+replacement NodePool's instance types — and `C06_price` holds for ALL candidate lists and option lists.  What has to be
+shown is that the model's decision, fed that way, passes the specification that prices each removed node at its own
+NodePool's price and each launch at the replacement NodePool's price. -/
+
+/-- **C06_tables_conservative** — without per-NodePool tables the specification is the one-catalog specification. -/
+theorem C06_tables_conservative (s : Karp.Scn.Scenario) (ridKey : String) (gate : Bool)
+    (infos : List Karp.Spec.Consolidation.PodInfo) (cmd : Karp.Spec.Consolidation.Command) (cands : List String) (w : Bool) :
+    Karp.Spec.Consolidation.commandOKT [] s ridKey gate infos cmd cands w =
+      Karp.Spec.Consolidation.commandOK s ridKey gate infos cmd cands w := by
+  have hv : ∀ p, Karp.Spec.Consolidation.poolView [] s p = s := fun _ => rfl
+  have h1 : Karp.Spec.Consolidation.strictlyCheaperT [] s ridKey cmd = Karp.Spec.Consolidation.strictlyCheaper s ridKey cmd := by
+    simp only [Karp.Spec.Consolidation.strictlyCheaperT, Karp.Spec.Consolidation.strictlyCheaper,
+      Karp.Spec.Consolidation.combinedPriceT, Karp.Spec.Consolidation.combinedPrice, hv]
+    rfl
+  have h2 : Karp.Spec.Consolidation.spotToSpotT [] s ridKey gate cmd = Karp.Spec.Consolidation.spotToSpot s ridKey gate cmd := by
+    simp only [Karp.Spec.Consolidation.spotToSpotT, Karp.Spec.Consolidation.spotToSpot, hv]
+    try rfl
+  have h3 : Karp.Spec.Consolidation.onDemandFallbackT [] s ridKey cmd = Karp.Spec.Consolidation.onDemandFallback s ridKey cmd := by
+    simp only [Karp.Spec.Consolidation.onDemandFallbackT, Karp.Spec.Consolidation.onDemandFallback,
+      Karp.Spec.Consolidation.combinedPriceT, Karp.Spec.Consolidation.combinedPrice, hv]
+    try rfl
+  simp only [Karp.Spec.Consolidation.commandOKT, Karp.Spec.Consolidation.commandOK, h1, h2, h3]
+  cases cmd.repl <;> rfl
+
+/-- **C06_spec_strictly_cheaper_tables** — with prices per NodePool: the model's replace decision, computed from candidates
+    that carry their OWN NodePool's offerings and a simulated NodeClaim whose options are the REPLACEMENT NodePool's
+    instance types, passes the specification's "every permitted launch (at the replacement NodePool's price) is strictly
+    cheaper than the removed nodes together (each at its own NodePool's price)". -/
+theorem C06_spec_strictly_cheaper_tables (t : Karp.Spec.Consolidation.Tables) (s : Karp.Scn.Scenario) (ridKey : String)
+    (hrid : ridKey ≠ ctKey) (gate : Bool)
+    (nodes : List Karp.Scn.Node) (hnodes : ∀ n ∈ nodes, s.node? n.name = some n)
+    (sim : Sim) (R' : Reqs) (kept : List IType) (n : Nat) (c : Karp.Consolidate.Claim)
+    (hdec : compute ridKey gate (nodes.map (fun nd => candOf (Karp.Spec.Consolidation.poolView t s nd.pool) nd)) sim = .replace R' kept n)
+    (hc : sim.claims = [c]) (hyp : ClaimHyps ridKey c)
+    (cmd : Karp.Spec.Consolidation.Command) (hcands : cmd.cands = nodes.map (·.name))
+    (cl : Karp.Scn.Claim) (hrepl : cmd.repl = [cl]) (hreqs : cl.reqs = R') (hits : cl.its = (kept.take n).map (·.name))
+    (hcat : ∀ it ∈ kept, ∃ sit, (Karp.Spec.Consolidation.poolView t s cl.pool).it? it.name = some sit ∧ itypeOf sit = it) :
+    Karp.Spec.Consolidation.strictlyCheaperT t s ridKey cmd = none := by
+  obtain ⟨c', hc', hp⟩ := C06_price ridKey hrid gate _ sim R' kept n hdec
+  have : c' = c := by rw [hc] at hc'; exact (List.cons.inj hc').1.symm
+  subst this
+  have hprice := hp hyp
+  unfold Karp.Spec.Consolidation.strictlyCheaperT
+  rw [hrepl, hcands, combinedPriceT_eq t s nodes hnodes]
+  apply firstV_none
+  intro v hv
+  simp only [List.map_cons, List.map_nil, List.mem_singleton] at hv
+  subst hv
+  apply firstV_none
+  intro v hv
+  obtain ⟨itn, hitn, rfl⟩ := List.mem_map.mp hv
+  rw [hits] at hitn
+  obtain ⟨it, hit, rfl⟩ := List.mem_map.mp hitn
+  have hk : it ∈ kept := List.mem_of_mem_take hit
+  obtain ⟨sit, hs, he⟩ := hcat it hk
+  simp only [hs]
+  have hnone : (Karp.Spec.Consolidation.launches ridKey cl.reqs sit).find?
+      (fun o => decide (sumPrices (nodes.map (fun nd => candOf (Karp.Spec.Consolidation.poolView t s nd.pool) nd)) ≤ o.price)) = none := by
+    rw [List.find?_eq_none]
+    intro o ho
+    have ho' := List.mem_filter.mp ho
+    have hav : o.available = true := by
+      have := ho'.2; cases h1 : o.available <;> simp_all
+    have hperm : Karp.Spec.Consolidation.permits ridKey cl.reqs o = true := by
+      have := ho'.2; cases h1 : Karp.Spec.Consolidation.permits ridKey cl.reqs o <;> simp_all
+    rw [permits_eq, hreqs] at hperm
+    have hmem : offeringOf o ∈ it.offerings := by
+      rw [← he]; exact List.mem_map.mpr ⟨o, ho'.1, rfl⟩
+    have := hprice it hk (offeringOf o) hmem hav hperm
+    simp only [offeringOf] at this
+    simp only [decide_eq_true_eq]
+    omega
+  rw [hnone]
+
+/-- the code: `BuildNodePoolMap` asks the provider for the instance types of EVERY NodePool (one unguarded
+    `GetInstanceTypes` call per iteration, stored under that NodePool's name), and `NewCandidate` prices the node from it -/
+theorem fact_node_pool_map :
+    Karp.Gen.C06Facts.buildNodePoolMapOutline =
+      ["nodePoolMap := map[string]*v1.NodePool{}",
+       "nodePools, err := nodepoolutils.ListManaged(…)",
+       "if err != nil", "return nil, nil, fmt.Errorf(…)", "end",
+       "nodePoolToInstanceTypesMap := map[string]map[string]*cloudprovider.InstanceType{}",
+       "for _, np := range nodePools",
+       "nodePoolMap[np.Name] = np",
+       "nodePoolInstanceTypes, err := cloudProvider.GetInstanceTypes(…)",
+       "if err != nil",
+       "if cloudprovider.IsUnevaluatedNodePoolError(err)", "(other statement)", "(other statement)", "end",
+       "(other statement)", "(other statement)", "end",
+       "if len(nodePoolInstanceTypes) == 0", "(other statement)", "end",
+       "nodePoolToInstanceTypesMap[np.Name] = map[string]*cloudprovider.InstanceType{}",
+       "for _, it := range nodePoolInstanceTypes",
+       "nodePoolToInstanceTypesMap[np.Name][it.Name] = it",
+       "end", "end",
+       "return nodePoolMap, nodePoolToInstanceTypesMap, nil"] ∧
+    Karp.Gen.C06Facts.newCandidateCalls = ["resolveNodePrice"] := by decide
+
+/-! Non-vacuity and necessity: NodePool `b` is charged a quarter of the list price for `big`.  A `big` node of `b` (250)
+    may not be replaced by `small` from NodePool `a` (300 on demand) although 300 is below `big`'s LIST price 1000 — pricing
+    the candidate by another NodePool's table (here: the catalog) is exactly what the specification rejects. -/
+def tblScn : Karp.Scn.Scenario :=
+  { its := [{ name := "big", cpu := 8000, mem := 8000, pods := 10, arch := "amd64", os := ["linux"], overhead := 0,
+              offerings := [{ zone := "z1", ct := "on-demand", price := 1000, available := true, resID := "", resN := 0 }] },
+            { name := "small", cpu := 2000, mem := 2000, pods := 10, arch := "amd64", os := ["linux"], overhead := 0,
+              offerings := [{ zone := "z1", ct := "on-demand", price := 300, available := true, resID := "", resN := 0 }] }],
+    pools := [], daemonsets := [], pods := [], ignorePreferences := false, bestEffortMinValues := false, parallelism := 1,
+    reservedCapacity := false,
+    nodes := [{ name := "n1", pool := "b", it := "big", zone := "z1", ct := "on-demand", labels := [], taints := [], stage := "initialized",
+                deleting := false, pods := [] }] }
+def tblB : Karp.Spec.Consolidation.Tables :=
+  [("b", [{ name := "big", cpu := 8000, mem := 8000, pods := 10, arch := "amd64", os := ["linux"], overhead := 0,
+            offerings := [{ zone := "z1", ct := "on-demand", price := 250, available := true, resID := "", resN := 0 }] },
+          { name := "small", cpu := 2000, mem := 2000, pods := 10, arch := "amd64", os := ["linux"], overhead := 0,
+            offerings := [{ zone := "z1", ct := "on-demand", price := 75, available := true, resID := "", resN := 0 }] }])]
+def tblCmd (pool : String) : Karp.Spec.Consolidation.Command :=
+  { method := "single", cands := ["n1"], existing := [], errors := [], newClaims := 1,
+    repl := [{ pool := pool, pods := [], reqs := [], its := ["small"], reqCPU := 0, reqMem := 0, reqPods := 0, taints := [] }] }
+
+example : Karp.Spec.Consolidation.combinedPriceT tblB tblScn ["n1"] = 250 := by decide
+example : Karp.Spec.Consolidation.combinedPrice tblScn ["n1"] = 1000 := by decide
+/-- replaced from NodePool `a` (list prices): 300 is not below 250 — rejected, although the one-catalog reading accepts -/
+theorem C06_tables_needed :
+    (Karp.Spec.Consolidation.strictlyCheaperT tblB tblScn "rid" (tblCmd "a")).isSome = true ∧
+    Karp.Spec.Consolidation.strictlyCheaper tblScn "rid" (tblCmd "a") = none := by decide
+/-- replaced within NodePool `b` (75 < 250): accepted -/
+example : Karp.Spec.Consolidation.strictlyCheaperT tblB tblScn "rid" (tblCmd "b") = none := by decide
+
 /-! ## Non-vacuity: concrete catalogs exercising every branch -/
 
 def odCand : Cand := { name := "n1", itName := "big", zone := "z1", ct := "on-demand", offerings := big.offerings }
